@@ -2768,3 +2768,158 @@ func ruleC13(c *Ctx, r *Report) {
 		}
 	}
 }
+
+// ---------------------------------------------------------------------------------------
+// C36 — the SQL blacklist: which text is fingerprinted, and by what
+
+func init() {
+	register("C36", "Clauses decided (structure of the blacklist decision; that mysql.GetFingerprint itself ignores exactly literals, spacing, case and comments is a language property and is NOT decided): (text) the fingerprint on which a statement's blacklist decision is taken is computed from that statement's own text — the request context memoises the fingerprint, so wherever it is (re)set before a doQuery call the text fingerprinted is the text handed to doQuery (in doMultiStmts: the piece, not the whole packet), and every command starts with a fresh RequestContext; (same) the blacklist keys and the request side are produced by the same composition GetMd5(GetFingerprint(text)) (parseBlackSqls, setContextSQLFingerprint, getSQLFingerprint/getSQLFingerprintMd5), and IsSQLAllowed looks up exactly that MD5; (gate) checkSQLAllowed returns nil only on the allowed edge and dominates execution (shared with C21).",
+		ruleC36)
+}
+
+func ruleC36(c *Ctx, r *Report) {
+	const rule = "MP-C36"
+	r.floor(rule, 7)
+	setFP := c.Func(serverRel, "setContextSQLFingerprint")
+	getFP := c.Func(serverRel, "getSQLFingerprint")
+	getMD5 := c.Func(serverRel, "getSQLFingerprintMd5")
+	parseBlack := c.Func(serverRel, "parseBlackSqls")
+	isAllowed := c.Method(serverRel, "Namespace", "IsSQLAllowed")
+	checkAllowed := c.seMethod("checkSQLAllowed")
+	doQuery := c.seMethod("doQuery")
+	execCmd := c.seMethod("ExecuteCommand")
+	fp := c.Func("mysql", "GetFingerprint")
+	md5 := c.Func("mysql", "GetMd5")
+	newCtx := c.Func("util", "NewRequestContext")
+	if setFP == nil || getFP == nil || getMD5 == nil || parseBlack == nil || isAllowed == nil || checkAllowed == nil || doQuery == nil || execCmd == nil || fp == nil || md5 == nil || newCtx == nil {
+		r.undecided(rule, serverRel, "anchor", "-", "blacklist / fingerprint helpers not all found")
+		return
+	}
+	// ---- (text) every function that sets the memo and then runs doQuery fingerprints the text it runs
+	n := 0
+	for _, fn := range c.Funcs {
+		if c.IsMockFunc(fn) || fn.Pkg == nil || !strings.HasSuffix(fn.Pkg.Pkg.Path(), serverRel) {
+			continue
+		}
+		sets := callsIn(fn, func(cc *ssa.CallCommon) bool { return callsFunc(cc, setFP) })
+		if len(sets) == 0 {
+			continue
+		}
+		qs := callsIn(fn, func(cc *ssa.CallCommon) bool { return callsFunc(cc, doQuery) })
+		for i, s := range sets {
+			scc := callCommon(s)
+			text := scc.Args[len(scc.Args)-1]
+			for _, q := range qs {
+				if !instrDominates(s, q) {
+					continue
+				}
+				n++
+				qcc := callCommon(q)
+				cons := fmt.Sprintf("text:fingerprint-of-the-statement-run@%d", i+1)
+				if sameVal(text, qcc.Args[len(qcc.Args)-1]) {
+					r.ok(rule, c.FuncName(fn), cons, c.Pos(s.Pos()), "the memoised fingerprint is computed from the text handed to doQuery")
+				} else {
+					r.viol(rule, c.FuncName(fn), cons, c.Pos(s.Pos()), "the request context's fingerprint is set from another text than the statement that is then checked and executed (the whole multi-statement packet instead of the piece): the blacklist lookup of the piece uses the packet's fingerprint, so a blacklisted statement inside a multi-statement query is not rejected")
+				}
+			}
+		}
+	}
+	if n == 0 {
+		r.undecided(rule, serverRel, "text:set-sites", "-", "no setContextSQLFingerprint call followed by doQuery found")
+	}
+	// a command starts with a fresh context
+	{
+		nc := callsIn(execCmd, func(cc *ssa.CallCommon) bool { return callsFunc(cc, newCtx) })
+		fresh := len(nc) == 1 && nc[0].Block() == execCmd.Blocks[0]
+		if fresh {
+			r.ok(rule, c.FuncName(execCmd), "text:fresh-context-per-command", c.Pos(nc[0].Pos()), "every command gets a new RequestContext (empty memo)")
+		} else {
+			r.viol(rule, c.FuncName(execCmd), "text:fresh-context-per-command", c.Pos(execCmd.Pos()), "commands do not start with a new RequestContext: the fingerprint memoised for an earlier statement decides a later statement's blacklist lookup")
+		}
+	}
+	// ---- (same) composition GetMd5(GetFingerprint(text))
+	fpOf := func(fn *ssa.Function, v ssa.Value) bool { // v is GetFingerprint(<string param of fn>) possibly via getSQLFingerprint
+		for _, l := range phiLeaves(v) {
+			call, ok := l.(*ssa.Call)
+			if !ok {
+				return false
+			}
+			if callsFunc(&call.Call, fp) || callsFunc(&call.Call, getFP) {
+				continue
+			}
+			// memo getters of the request context are the same value set before
+			if f := staticCallee(&call.Call); f != nil && strings.HasPrefix(f.Name(), "GetFingerprint") {
+				continue
+			}
+			return false
+		}
+		return true
+	}
+	for _, fn := range []*ssa.Function{parseBlack, setFP, getMD5} {
+		name := c.FuncName(fn)
+		calls := callsIn(fn, func(cc *ssa.CallCommon) bool { return callsFunc(cc, md5) })
+		if len(calls) != 1 {
+			r.viol(rule, name, "same:md5-of-fingerprint", c.Pos(fn.Pos()), "expected exactly one GetMd5 call")
+			continue
+		}
+		if fpOf(fn, callCommon(calls[0]).Args[0]) {
+			r.ok(rule, name, "same:md5-of-fingerprint", c.Pos(calls[0].Pos()), "GetMd5 is applied to GetFingerprint(text)")
+		} else {
+			r.viol(rule, name, "same:md5-of-fingerprint", c.Pos(calls[0].Pos()), "the MD5 is not taken of GetFingerprint(text): blacklist keys and request keys are normalised differently, so variants of a blacklisted statement are not recognised")
+		}
+	}
+	// getSQLFingerprint computes GetFingerprint of its own sql parameter
+	{
+		name := c.FuncName(getFP)
+		calls := callsIn(getFP, func(cc *ssa.CallCommon) bool { return callsFunc(cc, fp) })
+		if len(calls) == 1 && stripValue(callCommon(calls[0]).Args[0]) == ssa.Value(getFP.Params[len(getFP.Params)-1]) {
+			r.ok(rule, name, "same:fingerprint-of-own-text", c.Pos(calls[0].Pos()), "GetFingerprint is applied to the sql parameter")
+		} else {
+			r.viol(rule, name, "same:fingerprint-of-own-text", c.Pos(getFP.Pos()), "getSQLFingerprint does not fingerprint its sql parameter")
+		}
+	}
+	// IsSQLAllowed looks up the request MD5 in the blacklist map
+	{
+		name := c.FuncName(isAllowed)
+		fSqls := c.Field(serverRel, "Namespace", "sqls")
+		good := false
+		allInstrs(isAllowed, func(in ssa.Instruction) {
+			lk, ok := in.(*ssa.Lookup)
+			if !ok || fSqls == nil || !mapOfField(lk.X, fSqls) {
+				return
+			}
+			if call, ok := stripValue(lk.Index).(*ssa.Call); ok && callsFunc(&call.Call, getMD5) {
+				if stripValue(call.Call.Args[len(call.Call.Args)-1]) == ssa.Value(isAllowed.Params[len(isAllowed.Params)-1]) {
+					good = true
+				}
+			}
+		})
+		if good {
+			r.ok(rule, name, "same:lookup-key", c.Pos(isAllowed.Pos()), "the blacklist is looked up with getSQLFingerprintMd5(<the statement>)")
+		} else {
+			r.viol(rule, name, "same:lookup-key", c.Pos(isAllowed.Pos()), "the blacklist is not looked up with the fingerprint MD5 of the statement being checked")
+		}
+	}
+	// ---- (gate)
+	{
+		name := c.FuncName(checkAllowed)
+		calls := callsIn(checkAllowed, func(cc *ssa.CallCommon) bool { return callsFunc(cc, isAllowed) })
+		good := len(calls) == 1
+		if good {
+			for _, ret := range returnsOf(checkAllowed) {
+				isNil, known := returnsNilError(ret)
+				if known && !isNil {
+					continue
+				}
+				if !dominatedByCond(ret, calls[0].(ssa.Value), true) {
+					good = false
+				}
+			}
+		}
+		if good {
+			r.ok(rule, name, "gate:nil-only-when-allowed", c.Pos(checkAllowed.Pos()), "success is returned only on the IsSQLAllowed()==true edge")
+		} else {
+			r.viol(rule, name, "gate:nil-only-when-allowed", c.Pos(checkAllowed.Pos()), "checkSQLAllowed can return success for a statement the blacklist matched")
+		}
+	}
+}
